@@ -222,8 +222,8 @@ func (x *clx) stmts(owner string, list []ast.Stmt, closures map[string]string, l
 						continue
 					}
 				case *ast.Ident:
-					if lhs != nil && (lhs.Name == "remain") && (r.Name == "size" || r.Name == "sz") {
-						continue
+					if lhs != nil && s.Tok == token.ASSIGN {
+						continue // `remain = size`: copying the size counter (whatever the two are called)
 					}
 				case *ast.CallExpr:
 					if id, ok := r.Fun.(*ast.Ident); ok && id.Name == "append" {
@@ -495,26 +495,33 @@ func unlockAfter(fd *ast.FuncDecl, after string, handover bool) bool {
 	if idx < 0 {
 		return false
 	}
+	// the names the function gives to the lock and the error returned by waitResponse (`_, size, lock, err := …`)
+	lockName, errName := "lock", "err"
+	if as, ok := fd.Body.List[idx].(*ast.AssignStmt); ok && len(as.Lhs) == 4 {
+		lockName, errName = exprString(as.Lhs[2]), exprString(as.Lhs[3])
+	}
 	rest := fd.Body.List[idx+1:]
 	if len(rest) > 0 { // `if err != nil { return … }` right after the call: the lock was not obtained
-		if is, ok := rest[0].(*ast.IfStmt); ok && exprString(is.Cond.(*ast.BinaryExpr).X) == "err" {
-			rest = rest[1:]
+		if is, ok := rest[0].(*ast.IfStmt); ok {
+			if be, ok := is.Cond.(*ast.BinaryExpr); ok && exprString(be.X) == errName {
+				rest = rest[1:]
+			}
 		}
 	}
 	for _, st := range rest {
 		if d, ok := st.(*ast.DeferStmt); ok {
-			if sel, ok := d.Call.Fun.(*ast.SelectorExpr); ok && sel.Sel.Name == "Unlock" && exprString(sel.X) == "lock" {
+			if sel, ok := d.Call.Fun.(*ast.SelectorExpr); ok && sel.Sel.Name == "Unlock" && exprString(sel.X) == lockName {
 				return true
 			}
 		}
-		if isCallOn(st, "lock", "Unlock") {
+		if isCallOn(st, lockName, "Unlock") {
 			return true
 		}
 		if r, ok := st.(*ast.ReturnStmt); ok {
 			if handover {
 				ok := false
 				ast.Inspect(r, func(n ast.Node) bool {
-					if kv, is := n.(*ast.KeyValueExpr); is && exprString(kv.Key) == "lock" && exprString(kv.Value) == "lock" {
+					if kv, is := n.(*ast.KeyValueExpr); is && exprString(kv.Key) == "lock" && exprString(kv.Value) == lockName {
 						ok = true
 					}
 					return true
@@ -559,9 +566,17 @@ func containsCall(n ast.Node, name string) bool {
 // batchCloseUnlocks: (*Batch).close releases the lock it holds on every path: `if lock != nil { lock.Unlock() }` is a
 // top-level statement and no return statement occurs before it.
 func batchCloseUnlocks(fd *ast.FuncDecl) bool {
+	lockName := "lock" // the local that receives batch.lock
 	for _, st := range fd.Body.List {
-		if is, ok := st.(*ast.IfStmt); ok && len(is.Body.List) >= 1 && isCallOn(is.Body.List[len(is.Body.List)-1], "lock", "Unlock") {
-			if be, ok := is.Cond.(*ast.BinaryExpr); ok && be.Op == token.NEQ && exprString(be.X) == "lock" {
+		if as, ok := st.(*ast.AssignStmt); ok && len(as.Lhs) == 1 && len(as.Rhs) == 1 {
+			if sel, ok := as.Rhs[0].(*ast.SelectorExpr); ok && sel.Sel.Name == "lock" {
+				lockName = exprString(as.Lhs[0])
+			}
+		}
+	}
+	for _, st := range fd.Body.List {
+		if is, ok := st.(*ast.IfStmt); ok && len(is.Body.List) >= 1 && isCallOn(is.Body.List[len(is.Body.List)-1], lockName, "Unlock") {
+			if be, ok := is.Cond.(*ast.BinaryExpr); ok && be.Op == token.NEQ && exprString(be.X) == lockName {
 				return true
 			}
 		}
